@@ -53,7 +53,8 @@ fn gen_first_model(r: &mut Rng, o: &FullOpts, ids: &mut usize) -> SModel {
                 for k in 0..1 + r.below(4) {
                     serial += 1;
                     *ids += 1;
-                    let nm = ATOMN[(k + r.below(3)) % ATOMN.len()].to_string();
+                    // nucleic-acid style names are CIF bare words too (a quote inside a word is legal)
+                    let nm = if o.target == Target::Cif && r.chance(1, 10) { r.pick(&["O5'", "C1*", "H5''", "N-1"]).to_string() } else { ATOMN[(k + r.below(3)) % ATOMN.len()].to_string() };
                     let step = |r: &mut Rng, lo: i64, hi: i64, unit: i64| r.range(lo, hi) * unit;
                     let (x, y, z) = if o.in_range {
                         let edge = |r: &mut Rng| if r.chance(1, 12) { *r.pick(&[-999_999_000i64, 9_999_999_000]) } else { r.range(-99_999, 99_999) * 1000 };
